@@ -11,6 +11,7 @@ From KV Require Import Base.Sx Gen.Generated Model.Categorical Model.Concat Proo
 From KV Require Base.SelSlice Model.Select Proofs.SelectLawsP Model.ConcatSel Proofs.ConcatSelP Proofs.ConcatSelExP.
 From KV Require Base.AxisIndex Base.NdArray Model.LazyIdx Model.ConcatData Proofs.ConcatDataP Proofs.ConcatDataExP.
 From KV Require Model.ConcatIdent Proofs.ConcatIdentP Model.ConcatMulti Proofs.ConcatMultiP Proofs.ConcatMultiExP.
+From KV Require Model.ConcatMeta Proofs.ConcatMetaP.
 Import ListNotations.
 Open Scope nat_scope.
 
@@ -450,3 +451,118 @@ Example C19_select_sw_example :
   ConcatMultiExP.bk_of (run (ConcatMultiExP.exM_mo 1 0) (init (ConcatMultiExP.exM_mo 1 0)) ConcatMultiExP.exM_calls) = [false; true; true].
 Proof. exact ConcatMultiExP.exM_short. Qed.
 Print Assumptions C19_select_sw_example.
+
+(* ------------------------------------------------------------------ metadata of the concatenation (round f) *)
+(* Model/ConcatMeta.v: the block "Merge high-level metadata" of ConcatenatedDataSet.__init__ (anchor: chronological sort
+   and metadata merge).  [dmeta] = one data set as that block reads it (values as ids, '' = 0); [concat_meta] = what the
+   concatenation presents: the six joined strings as the lists of their components, obs_params / receivers as
+   association lists of [One v] (all parts agree) / [Many vs] (the parts' values in time order, '' for a part without the
+   key), start / end time, ref_ant / time_offset, the order of self.datasets. *)
+Import KV.Model.ConcatMeta KV.Proofs.ConcatMetaP.
+Open Scope Z_scope.
+
+(* what the translator finds (item_concat_meta): ref_ant / time_offset from datasets[0] BEFORE the sort, everything else
+   after it; the separator of every joined string; `.get(key, '')`; one value iff itertools.groupby finds one run;
+   start = min, end = max *)
+Theorem C19_meta_source :
+  concat_meta_ref_from_input_head = true /\
+  concat_meta_joins = [("name", ","); ("url", " | "); ("version", ","); ("observer", ","); ("description", " | ");
+                       ("experiment_id", ",")]%string /\
+  concat_meta_dicts = ["obs_params"; "receivers"]%string /\ concat_meta_missing_value = ""%string /\
+  concat_meta_one_value_iff_one_group = true /\ concat_start_is_min_end_is_max = true.
+Proof. exact meta_constants_ok. Qed.
+Print Assumptions C19_meta_source.
+
+(* ANY order of the input list gives the same metadata (and the same refusal) - except ref_ant / time_offset ... *)
+Theorem C19_meta_order_independent : forall l l', Permutation l l' ->
+  option_map forget_ref (concat_meta l) = option_map forget_ref (concat_meta l').
+Proof. exact meta_order_independent. Qed.
+Print Assumptions C19_meta_order_independent.
+
+(* ... which are those of the first data set of the INPUT list, hence order independent too when all parts were opened
+   with the same ref_ant / time_offset, as katdal.open([...], ref_ant, time_offset) does *)
+Theorem C19_meta_ref_is_input_head : forall a t m,
+  concat_meta (a :: t) = Some m -> mm_refant m = dm_refant a /\ mm_toff m = dm_toff a.
+Proof. exact meta_ref_is_input_head. Qed.
+Print Assumptions C19_meta_ref_is_input_head.
+
+Theorem C19_meta_order_independent_same_ref : forall l l', Permutation l l' ->
+  (forall a b, In a l -> In b l -> dm_refant a = dm_refant b /\ dm_toff a = dm_toff b) ->
+  concat_meta l = concat_meta l'.
+Proof. exact meta_order_independent_full. Qed.
+Print Assumptions C19_meta_order_independent_same_ref.
+
+(* self.datasets: a permutation of the input in strictly increasing start time; refused iff no data set or equal
+   start times *)
+Theorem C19_meta_chronological : forall l m, concat_meta l = Some m ->
+  exists ds, Permutation l ds /\ StronglySorted lt_m ds /\ mm_order m = map dm_start ds /\ NoDup (map dm_start l).
+Proof. exact meta_order. Qed.
+Print Assumptions C19_meta_chronological.
+
+Theorem C19_meta_refused : forall l, concat_meta l = None <-> l = [] \/ ~ NoDup (map dm_start l).
+Proof. exact meta_refused. Qed.
+Print Assumptions C19_meta_refused.
+
+(* start_time = the earliest start = the start of the first data set in time order; end_time = the latest end; both
+   are attained by a part and bound every part *)
+Theorem C19_meta_start_end : forall l m, concat_meta l = Some m ->
+  (forall d, In d l -> mm_start m <= dm_start d /\ dm_end d <= mm_end m) /\
+  (exists d, In d l /\ mm_start m = dm_start d) /\ (exists d, In d l /\ mm_end m = dm_end d) /\
+  mm_start m = hd 0 (mm_order m).
+Proof. exact meta_start_end. Qed.
+Print Assumptions C19_meta_start_end.
+
+(* name / url / version / observer / description / experiment_id: every distinct value of the parts exactly once, in
+   order of first appearance over the parts in TIME order *)
+Theorem C19_meta_joined : forall l m, concat_meta l = Some m ->
+  forall (f : dmeta -> Z) (g : mmeta -> list Z),
+    (f = dm_name /\ g = mm_name) \/ (f = dm_url /\ g = mm_url) \/ (f = dm_version /\ g = mm_version) \/
+    (f = dm_observer /\ g = mm_observer) \/ (f = dm_descr /\ g = mm_descr) \/ (f = dm_expid /\ g = mm_expid) ->
+    NoDup (g m) /\ (forall x, In x (g m) <-> exists d, In d l /\ f d = x) /\
+    (exists ds, Permutation l ds /\ StronglySorted lt_m ds /\ g m = unique_in_order Z.eqb (map f ds)).
+Proof. exact meta_joined. Qed.
+Print Assumptions C19_meta_joined.
+
+(* obs_params / receivers of the whole = the merge of the parts' dictionaries in time order ... *)
+Theorem C19_meta_dicts : forall l m, concat_meta l = Some m ->
+  exists ds, Permutation l ds /\ StronglySorted lt_m ds /\
+             mm_params m = merge_dicts (map dm_params ds) /\ mm_rx m = merge_dicts (map dm_rx ds).
+Proof. exact meta_dicts. Qed.
+Print Assumptions C19_meta_dicts.
+
+(* ... of which: keys distinct; a key is there iff some part has it; nothing is lost (for every key and every part the
+   part's own value, or '' when it lacks the key, is read back from the merged entry); a single value stands EXACTLY for
+   "all parts agree"; a list is the list of the parts' values *)
+Theorem C19_merged_dict_laws : forall ds,
+  NoDup (map fst (merge_dicts ds)) /\
+  (forall k, In k (map fst (merge_dicts ds)) <-> exists d, In d ds /\ In k (map fst d)) /\
+  (forall k mv, mget k (merge_dicts ds) = Some mv ->
+     (forall i, (i < List.length ds)%nat -> mval_nth mv i = dget k (nth i ds [])) /\
+     (forall v, mv = One v <-> ds <> [] /\ forall d, In d ds -> dget k d = v) /\
+     (forall vs, mv = Many vs -> vs = map (dget k) ds)) /\
+  (forall k, mget k (merge_dicts ds) = None <-> forall d, In d ds -> ~ In k (map fst d)).
+Proof. exact merge_dicts_laws. Qed.
+Print Assumptions C19_merged_dict_laws.
+
+(* katdal.open([f]) presents the metadata of f itself *)
+Theorem C19_meta_single : forall d, NoDup (map fst (dm_params d)) -> NoDup (map fst (dm_rx d)) ->
+  concat_meta [d] =
+  Some (mkMM [dm_name d] [dm_url d] [dm_version d] [dm_observer d] [dm_descr d] [dm_expid d]
+             (map (fun kv => (fst kv, One (snd kv))) (dm_params d)) (map (fun kv => (fst kv, One (snd kv))) (dm_rx d))
+             (dm_start d) (dm_end d) (dm_refant d) (dm_toff d) [dm_start d]).
+Proof. exact meta_single. Qed.
+Print Assumptions C19_meta_single.
+
+(* C | A | B given out of time order: names / urls in time order, one version, two observers; key 7 missing from B
+   (list with ''), key 8 agreed (single value), key 9 only in C; ref_ant / time_offset of C (the first of the input list,
+   the LAST in time) - and of A when A is given first; equal start times refused *)
+Example C19_meta_example :
+  concat_meta [mC; mA; mB] =
+  Some (mkMM [1; 2; 3] [11; 12; 13] [4] [5; 9] [6] [0]
+             [(7, Many [70; 0; 70]); (8, One 80); (9, Many [0; 0; 90])] [(1, Many [30; 30; 31]); (2, Many [30; 0; 30])]
+             100 340 43 5 [100; 200; 300]) /\
+  option_map forget_ref (concat_meta [mA; mB; mC]) = option_map forget_ref (concat_meta [mC; mA; mB]) /\
+  option_map mm_refant (concat_meta [mA; mB; mC]) = Some 41 /\
+  concat_meta [mA; mA] = None.
+Proof. exact ex_meta. Qed.
+Print Assumptions C19_meta_example.
